@@ -147,8 +147,19 @@ const miniXMLTrailerInput = `<?xml version="1.0"?><root><rec id="a"><qty>1</qty>
 <?done yes?>
 `
 
+// values full of characters that are special somewhere on the way out: backslashes, the six-character texts \u0026 /
+// \u003c, quotes, angle brackets, ampersands, control characters, line separators, non-BMP runes
+const miniSpecials = `{
+ "parser_settings": {"version": "omni.2.1", "file_format_type": "csv"},
+ "file_declaration": {"delimiter": "|", "data_row_index": 1, "columns": [{"name": "id"}, {"name": "note"}]},
+ "transform_declarations": {"FINAL_OUTPUT": {"object": {"id": {"xpath": "id"}, "note": {"xpath": "note", "no_trim": true},
+   "both": {"custom_func": {"name": "concat", "args": [{"xpath": "note"}, {"const": "<&>\\u0026"}]}}}}}
+}`
+const miniSpecialsInput = "1|plain\n2|C:\\share\\u0026\\readme.txt\n3|a\\u003cb \\u003e c\n4|<tag attr='x'>&amp;</tag>\n5|tab\there \x01 ctl\n6|\u2028 sep \u2029 \U0001F600\n7|back\\slash \\\\ double\n"
+
 func miniSamples() []Sample {
 	return []Sample{
+		{"mini/specials", "csv", []byte(miniSpecials), []byte(miniSpecialsInput)},
 		{"mini/xml-trailer", "xml", []byte(miniXML), []byte(miniXMLTrailerInput)},
 		{"mini/json-trailing-scalar", "json", []byte(miniJSON), []byte(miniJSONTrailInput)},
 		{"mini/json-trailing-string-object", "json", []byte(miniJSON), []byte(miniJSONTrailInput2)},
